@@ -191,6 +191,12 @@ def _exc_info(e):
     for fr in reversed(tb):
         if "norminette" in fr.filename:
             where = f"{os.path.basename(fr.filename)}:{fr.name}"
+            if os.sep + "rules" + os.sep not in fr.filename:
+                # a shared helper (errors.py, context.py, registry.py): the call site is the innermost rule frame
+                for fr2 in reversed(tb):
+                    if os.sep + "rules" + os.sep in fr2.filename and "norminette" in fr2.filename:
+                        where += f"<-{os.path.basename(fr2.filename)}:{fr2.name}"
+                        break
             break
     msg = str(e)
     if len(msg) > 200:
